@@ -116,4 +116,7 @@ func (vn *VerifWaitNode) GiveUp(id uint64) bool {
 // Trigger is what the apply path does with the result of an applied entry.
 func (vn *VerifWaitNode) Trigger(id uint64, v interface{}) { vn.nd.w.Trigger(id, v) }
 func (vn *VerifWaitNode) IsRegistered(id uint64) bool      { return vn.nd.w.IsRegistered(id) }
+
+// ShardLocked: is the registry lock that guards id held right now (by a Trigger the harness stopped between its parts)?
+func (vn *VerifWaitNode) ShardLocked(id uint64) bool { return wait.VerifShardLocked(vn.rec.Wait, id) }
 func VerifIsProposalCanceled(err error) bool               { return err == ErrProposalCanceled }
